@@ -99,8 +99,34 @@ func TestC02Rapid(t *testing.T) {
 					nestedErr = env.Nested(ctx, cloneMsg(cur))
 				}
 			}
+			// one step in eight the bank refuses transfers out of an escrow (a restriction on the token, a frozen
+			// account): a claim that cannot be paid must fail as a whole and stay payable
+			refused := 0
+			if !nested && rapid.IntRange(0, 7).Draw(rt, "bankRefuses") == 0 {
+				env := w.e
+				env.Send.Reject = func(ctx sdk.Context, from, to sdk.AccAddress, amt sdk.Coins) error {
+					if cur, ok := env.Send.Current.(*ophosttypes.MsgFinalizeTokenWithdrawal); ok && from.Equals(escrowAddr(cur.BridgeId)) {
+						refused++
+						return fmt.Errorf("transfer refused by the token")
+					}
+					return nil
+				}
+			}
+			preDigest := ""
+			if w.e.Send.Reject != nil {
+				preDigest = w.e.Digest()
+			}
 			st := w.step(rt)
-			w.e.Send.Fn = nil
+			w.e.Send.Fn, w.e.Send.Reject = nil, nil
+			if refused > 0 {
+				c.Class("claim-whose-transfer-the-bank-refuses")
+				if st.Res.OK() {
+					rt.Fatalf("C02 violated at step %d: the bank refused the payout but the claim succeeded (nothing was paid, the withdrawal counts as claimed)\nhistory:\n%s", i, w.history())
+				}
+				if w.e.Digest() != preDigest {
+					rt.Fatalf("C02 violated at step %d: a claim that failed because the bank refused the payout changed state\nhistory:\n%s", i, w.history())
+				}
+			}
 			if nested {
 				c.Class("claim-resubmitted-while-its-transfer-executes")
 				if nestedErr == nil {
